@@ -90,6 +90,15 @@ class C06(AstKindProp):
             if r.random() < 0.3:
                 # name and kind are not passed: the emitter takes them from the description
                 opts.update({"ir_type": opts["function_type"], "function_type": None, "name": None})
+        # the emitters' less used options (left out = the emitter's own default)
+        if kind == "function" and r.random() < 0.4:
+            opts["emit_separating_tab"] = r.random() < 0.5
+        if kind == "class" and r.random() < 0.3:
+            opts["emit_call"] = r.random() < 0.5
+        if kind == "argparse" and r.random() < 0.4:
+            opts["docstring_format"] = r.choice(["rest", "google", "numpydoc"])
+        if kind == "argparse" and r.random() < 0.3:
+            opts["wrap_description"] = r.random() < 0.5
         if r.random() < 0.25:
             opts["emitted_before"] = r.choice([k for k in ("class", "function", "argparse") if k != kind])
         run.dist["kind"][kind] += 1
@@ -336,7 +345,8 @@ class C06(AstKindProp):
 
     def expect_argparse(self, c, ir, view, src):
         fails = []
-        if (view["description"] or "").strip() != (ir["doc"] or "").strip():
+        same_desc = (lambda a, b: " ".join(a.split()) == " ".join(b.split())) if c["opts"].get("wrap_description") else (lambda a, b: a.strip() == b.strip())
+        if not same_desc(view["description"] or "", ir["doc"] or ""):
             fails.append({"what": "parser description differs", "want": ir["doc"], "got": view["description"]})
         if not view["returned_parser"]:
             fails.append({"what": "the function does not return the parser"})
